@@ -9,4 +9,10 @@ pub mod autogen;
 #[cfg(kani)]
 pub mod stubs;
 
+pub mod c07;
 pub mod c08;
+pub mod c03;
+pub mod c05;
+pub mod c06;
+pub mod c14;
+pub mod c16;
